@@ -342,11 +342,12 @@ func (e *Engine) declareSpecFunc(c *Ctx, env *specEnv, sf *SpecFunc) {
 	sub := &specEnv{f: env.f, c: c, heap: env.heap, old: env.old, vars: map[string]SVal{}, pkg: env.pkg}
 	for _, p := range sf.Params {
 		pn := quote("sp " + sf.Name + " " + p.Name)
-		ps = append(ps, fmt.Sprintf("(%s %s)", pn, specSort(p.Sort)))
-		ss = append(ss, specSort(p.Sort))
-		sub.vars[p.Name] = SVal{T: Term{pn, specSort(p.Sort)}, GoT: specGoType(p.Sort)}
+		srt, got := c.resolveSort(env.pkg, p.Sort)
+		ps = append(ps, fmt.Sprintf("(%s %s)", pn, srt))
+		ss = append(ss, srt)
+		sub.vars[p.Name] = SVal{T: Term{pn, srt}, GoT: got}
 	}
-	ret := specSort(sf.Ret)
+	ret, _ := c.resolveSort(env.pkg, sf.Ret)
 	if len(sf.Params) == 0 {
 		c.decls = append(c.decls, fmt.Sprintf("(declare-const %s %s)", name, ret))
 	} else {
